@@ -307,11 +307,24 @@ def run(ctx):
            'named entities are tested before the numeric forms and &#x before &#')
     C.rule('C01-MUST-writer', 'CharacterData::serialize_internal emits a String payload only through escape_text; Element::serialize_internal and serialize_attributes emit character data only through CharacterData::serialize_internal; attributes are quoted with the double quote that escape_text escapes')
     C.rule('C01-SIB-reader', 'in parse_character_data every CharacterData::String built from input passes through unescape_string, or the path reported a (Utf8) error; the whitespace-preserving string kind converts the UNtrimmed input; attribute values and element text use the same parse_character_data')
+    C.rule('C01-MUST-onetext', 'an element whose content is character data only stores ONE text item: in parse_element a further character-data piece (the text continues after a comment or processing instruction) is only pushed after the content mode / the emptiness of the content was tested, and the other edge reports it - the serializer writes the first item only')
     C.rule('C01-SIB-fields', 'every ElementRaw field the parser stores (elemname, attributes, content, comment) is read by the serializer; xml_standalone is stored by load and read by ArxmlFile::serialize; every field of the CharacterDataSpec variants is read in parse_character_data')
     C.assumptions = ['whitespace trimming, indentation, number formatting and byte identity of the second serialisation are NOT decided', 'str::starts_with / String::push_str have their std semantics']
     # ---------------- SIB-escape ----------------
     if not escape_rules(C, P, syn, 'C01-SIB-escape'):
         return C.finish('fail closed')
+    # ---------------- MUST-onetext ----------------
+    pe_ = P.get('ArxmlParser::parse_element')
+    cd_push = [o['pos'] for o in E.content_ops(pe_) if o['op'] == 'push' and o['item'] == 'CharacterData']
+    if not cd_push:
+        C.anchor_missing('C01-MUST-onetext', 'parse_element: push of character data')
+    else:
+        tests_ = [pos for pos, t in pe_.iter_calls() if call_matches(t, r'ElementType::content_mode$') or (call_matches(t, r'SmallVec::<A>::(is_empty|len)$|Iterator>?::any$') and 'ElementRaw.content' in deep_sources(pe_, t['args'][0], depth=8)[2])]
+        from pairing import iteration_start as _its
+        for i_, cp in enumerate(cd_push):
+            okc = any(pe_.pos_dominates(tp, cp) and tp in pe_.reach_from(_its(pe_, cp)) for tp in tests_)
+            C.check(okc, 'C01-MUST-onetext', 'parse_element|character-data-push#%d|second-piece-tested' % i_, 'parse_element stores every character-data piece of an element: when a comment splits the text of a character-data element (<SHORT-NAME>Pk<!--c-->g</SHORT-NAME>) two items are stored and the serializer writes only the first - the value is silently truncated on load -> serialize',
+                    pe_.where(cp), sample={'fn': 'parse_element', 'guard': 'content_mode() == Characters && !content.is_empty() -> reported'})
     # ---------------- MUST-writer ----------------
     si = P.get('CharacterData::serialize_internal')
     pushes = calls(si, r'String::push_str$')
